@@ -54,10 +54,31 @@ finishes, while thread 1 is inside its ioctl, i.e. inside the lock region and be
 reads the flag).  Observed: flag, cache, thread 1's value, number of computations, a
 get_cell_size() made after both finished, and the twin's fresh values.
 
+INVALIDATION SCHEDULES ({"inval": {...}}): 2-3 real threads run programs of memoised
+calls ["C", k] / ["I"] (`f._invalidate_cache()`) / ["E"] (`term_image.enable_queries()`) /
+["D"] (`term_image.disable_queries()`) on one memoised function `fn` under a COOPERATIVE
+SCHEDULER: a controlled thread runs only when PICKED and then runs to its next parking
+point.  Parking points: the start of every command; the acquisition of the memo's lock
+(about to acquire / just acquired) and its release (about to release / just released);
+the start of the memoised body,
+before it reads `_queries_enabled`; inside the body after the flag was read (the
+terminal's reply is about to arrive); the table's `setdefault`.  The lock and the table
+of `utils.cached` live in closure cells shared by the wrapper and its `_invalidate_cache`:
+the cells' contents are replaced by a reporting re-entrant lock (`CoopRLock`: a pick of a
+thread that finds the lock taken is a no-op, nobody ever blocks on it) and a reporting
+dict (`CoopDict`); for fn = "cs" (`get_cell_size`) the module attributes
+`_cell_size_lock` / `_cell_size_cache` are replaced likewise.  fn: "nv"
+(`get_terminal_name_version`), "co" (`get_fg_bg_colors`, keys = the three argument
+tuples), "cs", or "probe": a function decorated with the REAL `utils.cached` whose body
+reads `utils._queries_enabled` at its start and returns (condition, serial of the body
+run, key) — its "E" is `enable_queries()` followed, when it found queries disabled, by
+the probe's own `_invalidate_cache()`.  `sched` is the list of picks; whatever is still
+unfinished afterwards runs freely ("drained").  Observed: see model/CachesInvalTie.v.
+
 Modes (stdin JSON):  list of cases -> list of results;  a case is either a history
 ({"env", "t0", "ops"}), a thread race ({"threads": n, "fn": ...}), a probe history, a
-swap schedule, or a request for a fresh computation in this (new) interpreter
-({"fresh": ...}).
+swap schedule, an invalidation schedule, or a request for a fresh computation in this
+(new) interpreter ({"fresh": ...}).
 """
 import importlib.util
 import json
@@ -708,6 +729,378 @@ def run_swap(case):
             "raw_cache": cache, "ref": ref}
 
 
+# --------------------------------------------------------------- invalidation schedules
+
+
+class Coop:
+    """Cooperative scheduler: a registered thread runs only between `pick(i)` and its next
+    `point()`; unregistered threads (the main thread) pass through every point.  Hand-over
+    by semaphores: `go[i]` lets thread i run, `parked` tells the controller it stopped."""
+
+    WAIT = 8.0
+
+    def __init__(self, n):
+        self.who = {}
+        self.at = {i: "new" for i in range(n)}
+        self.cmd = {i: None for i in range(n)}
+        self.skip = {i: False for i in range(n)}
+        self.go = {i: threading.Semaphore(0) for i in range(n)}
+        self.parked = threading.Semaphore(0)
+        self.free = False  # free run: every point passes, locks block for real
+        self.trace = []
+
+    def me(self):
+        return self.who.get(threading.get_ident())
+
+    def register(self, i):
+        self.who[threading.get_ident()] = i
+
+    def point(self, name):
+        i = self.me()
+        if i is None or self.free:
+            return
+        self.at[i] = name
+        self.parked.release()
+        self.go[i].acquire()
+        self.at[i] = "running"
+
+    def finish(self, i):
+        self.at[i] = "done"
+        self.parked.release()
+
+    def wait_parked(self, i):
+        """until the thread that was let run has stopped again -> where thread i is; None = nobody stopped in time"""
+        if not self.parked.acquire(timeout=self.WAIT):
+            return None
+        return self.at[i]
+
+    def pick(self, i):
+        if self.at[i] == "done":
+            self.trace.append([i, "done", "done"])
+            return "done"
+        was = self.at[i]
+        self.go[i].release()
+        now = self.wait_parked(i)
+        self.trace.append([i, was, now])
+        return now
+
+    def free_run(self):
+        self.free = True
+        for g in self.go.values():
+            g.release()
+
+
+class CoopRLock:
+    """Stands for the re-entrant lock of the memo under test.  A controlled thread parks
+    when it is about to acquire from outside ("acq"; for a call / a bare invalidation the
+    parking point at the start of the command stands for it), when it has acquired
+    ("held"), when it is about to release completely ("rel") and when it has released
+    ("out").  It never blocks: a pick that finds the lock taken leaves the thread parked
+    at "acq"."""
+
+    def __init__(self, coop):
+        self._lock = threading.RLock()
+        self._depth = {}
+        self.coop = coop
+
+    def acquire(self, blocking=True, timeout=-1):
+        me = threading.get_ident()
+        i = self.coop.me()
+        if i is None or self.coop.free or self._depth.get(me):
+            got = self._lock.acquire(blocking, timeout)
+            if got:
+                self._depth[me] = self._depth.get(me, 0) + 1
+            return got
+        if self.coop.skip[i]:
+            self.coop.skip[i] = False
+        else:
+            self.coop.point("acq")
+        while True:
+            if self.coop.free:
+                self._lock.acquire()
+                break
+            if self._lock.acquire(False):
+                break
+            self.coop.point("acq")
+        self._depth[me] = 1
+        self.coop.point("held")
+        return True
+
+    def release(self):
+        me = threading.get_ident()
+        outer = self.coop.me() is not None and self._depth.get(me) == 1
+        if outer:
+            self.coop.point("rel")
+        self._depth[me] -= 1
+        self._lock.release()
+        if outer:
+            self.coop.point("out")
+
+    def __enter__(self):
+        self.acquire()
+        return self
+
+    def __exit__(self, *exc):
+        self.release()
+
+
+class CoopDict(dict):
+    """The memo's table: a controlled thread executing a CALL parks before it stores."""
+
+    coop = None
+
+    def _park(self):
+        i = self.coop.me()
+        if i is not None and self.coop.cmd[i] == "C":
+            self.coop.point("store")
+
+    def setdefault(self, key, default=None):
+        self._park()
+        return dict.setdefault(self, key, default)
+
+    def __setitem__(self, key, value):
+        self._park()
+        dict.__setitem__(self, key, value)
+
+
+class CoopList(list):
+    """`utils._cell_size_cache`: a controlled thread executing a CALL parks before it stores."""
+
+    coop = None
+
+    def __setitem__(self, key, value):
+        i = self.coop.me()
+        if i is not None and self.coop.cmd[i] == "C":
+            self.coop.point("store")
+        list.__setitem__(self, key, value)
+
+
+_RLOCK_T = type(threading.RLock())
+
+
+def instrument_cached(f, coop):
+    """Replace the lock and the table in the closure cells of a `utils.cached` wrapper and of
+    its `_invalidate_cache` (they share the cells).  -> [(cell, original content)]"""
+    restore, new_for = [], {}
+    for fn in (f, getattr(f, "_invalidate_cache", None)):
+        for cell in getattr(fn, "__closure__", None) or ():
+            try:
+                v = cell.cell_contents
+            except ValueError:
+                continue
+            if id(v) in new_for:
+                new = new_for[id(v)][1]
+            elif isinstance(v, _RLOCK_T):
+                new = CoopRLock(coop)
+            elif type(v) is dict:
+                new = CoopDict(v)
+                new.coop = coop
+            else:
+                continue
+            new_for[id(v)] = (v, new)
+            restore.append((cell, v))
+            cell.cell_contents = new
+    return restore
+
+
+_fresh_memo = {}
+
+
+def fresh_memo(kind, env, size, qen, key):
+    k = json.dumps([kind, env, size, qen, key], sort_keys=True)
+    if k not in _fresh_memo:
+        _fresh_memo[k] = fresh(kind, (env, list(size)), False, qen, key)
+    return _fresh_memo[k]
+
+
+INVAL_KIND = {"nv": "NV", "co": "CO", "cs": "CS"}
+INVAL_REQ = {"nv": ctl.XTVERSION_b, "co": ctl.TEXT_FG_QUERY_b, "cs": ctl.CELL_SIZE_PX_b}
+
+
+def run_inval(case):
+    iv = case["inval"]
+    fn, env, size = iv["fn"], iv["env"], list(iv["t0"])
+    progs, sched = iv["progs"], iv["sched"]
+    keys = sorted({c[1] for p in progs for c in p if c[0] == "C"} | {k for k, _ in iv["warm"]})
+    if fn == "probe":
+        fdis = {k: [1, k] for k in keys}
+        fen = {k: [2, k] for k in keys}
+    else:
+        fdis = {k: fresh_memo(INVAL_KIND[fn], env, size, False, k) for k in keys}
+        fen = {k: fresh_memo(INVAL_KIND[fn], env, size, True, k) for k in keys}
+    reset_primary()
+    term = Term(env, size)
+    counters = {"cs": 0, "col": 0, "nv": 0}
+    install(U, term, counters)
+    coop = Coop(len(progs))
+    log, errs = [], []
+    state = {"serial": 0, "started": False, "calls": 0, "invals": 0}
+
+    def body_started():
+        """a body reads the condition NOW: its serial number (0 = before the threads started)"""
+        if state["started"]:
+            state["serial"] += 1
+            log.append(["B", state["serial"]])
+            return state["serial"]
+        return 0
+
+    # -- the function under test, its invalidation, value coding
+    restore = []
+    if fn == "probe":
+        def probe_body(k):
+            coop.point("body")
+            n = body_started()
+            c = bool(U._queries_enabled)
+            coop.point("reply")
+            return ("P", int(c), n, k)
+
+        probe = U.cached(probe_body)
+        restore += instrument_cached(probe, coop)
+        call = probe
+        invalidate = probe._invalidate_cache
+
+        def enable():
+            eff = not U._queries_enabled
+            term_image.enable_queries()
+            if eff:
+                probe._invalidate_cache()
+
+        def enc(v):
+            return [2 if v[1] else 1, v[3]]
+
+        def serial_of(v):
+            return v[2]
+    else:
+        base = U.query_terminal
+
+        def parked_query_terminal(request, more, timeout=None):
+            if not request.startswith(INVAL_REQ[fn]):
+                return base(request, more, timeout)
+            coop.point("body")
+            body_started()
+            r = base(request, more, timeout)
+            coop.point("reply")
+            return r
+
+        parked_query_terminal._c15_orig = base._c15_orig
+        U.query_terminal = parked_query_terminal
+        enable = term_image.enable_queries
+
+        def serial_of(v):
+            return -1
+
+        if fn == "nv":
+            f = U.get_terminal_name_version
+            restore += instrument_cached(f, coop)
+            call, invalidate, enc = (lambda k: f()), f._invalidate_cache, enc_nv
+        elif fn == "co":
+            f = U.get_fg_bg_colors
+            restore += instrument_cached(f, coop)
+            call, invalidate, enc = (lambda k: COL_CALLS[k](f)), f._invalidate_cache, enc_cols
+        else:
+            old_lock, old_cache = U._cell_size_lock, U._cell_size_cache
+            U._cell_size_lock = CoopRLock(coop)
+            U._cell_size_cache = CoopList(old_cache)
+            U._cell_size_cache.coop = coop
+            call, invalidate, enc = (lambda k: U.get_cell_size()), None, enc_cs
+
+    def coded(k, v):
+        e = enc(v)
+        return [2 if e == fen[k] else 1 if e == fdis[k] else 3, serial_of(v)]
+
+    rets = [[] for _ in progs]
+
+    def do_call(k, out):
+        state["calls"] += 1
+        j = state["calls"]
+        log.append(["S", j])
+        v = call(k)
+        log.append(["R", j, serial_of(v)])
+        out.append(coded(k, v))
+        return v
+
+    def worker(i):
+        coop.register(i)
+        try:
+            for cmd in progs[i]:
+                coop.cmd[i] = cmd[0]
+                coop.skip[i] = cmd[0] in ("C", "I")
+                coop.point("idle")
+                if cmd[0] == "C":
+                    do_call(cmd[1], rets[i])
+                elif cmd[0] == "I":
+                    state["invals"] += 1
+                    x = state["invals"]
+                    log.append(["XB", x])
+                    invalidate()
+                    log.append(["XE", x])
+                elif cmd[0] == "E":
+                    eff = not U._queries_enabled  # (read and written by enable_queries() before this thread parks again)
+                    if eff:
+                        state["invals"] += 1
+                        x = state["invals"]
+                        log.append(["XB", x])
+                    enable()
+                    if eff:
+                        log.append(["XE", x])
+                elif cmd[0] == "D":
+                    term_image.disable_queries()
+                else:
+                    raise AssertionError(cmd)
+        except BaseException as exc:  # noqa: B902
+            errs.append("thread %d: %r" % (i, exc))
+        finally:
+            coop.cmd[i] = None
+            coop.finish(i)
+
+    drained = stuck = 0
+    try:
+        # entries that are there already: made with the flag at the given value
+        for k, c in iv["warm"]:
+            U._queries_enabled = bool(c) or bool(iv["f0"])
+            call(k)
+        U._queries_enabled = bool(iv["f0"])
+        state["started"] = True
+        ths = [threading.Thread(target=worker, args=(i,), daemon=True) for i in range(len(progs))]
+        for t in ths:
+            t.start()
+        for i in range(len(progs)):
+            if coop.wait_parked(i) is None:
+                stuck += 1
+        for t in sched:
+            if stuck or all(coop.at[i] == "done" for i in range(len(progs))):
+                break
+            if coop.pick(t) is None:
+                stuck += 1
+        drained = sum(coop.at[i] != "done" for i in range(len(progs)))
+        coop.free_run()
+        for t in ths:
+            t.join(20)
+        if any(t.is_alive() for t in ths):
+            errs.append("threads still alive after the free run")
+        nbody = state["serial"]
+        flag = int(bool(U._queries_enabled))
+        # calls made AFTER all threads have finished
+        after, cache = [], []
+        for k in keys:
+            n0 = state["serial"]
+            out = []
+            v = do_call(k, out)
+            after.append(enc(v))
+            cache.append([0, -1] if state["serial"] != n0 else out[0])
+    finally:
+        coop.free_run()
+        for cell, v in restore:
+            cell.cell_contents = v
+        if fn == "cs":
+            U._cell_size_lock, U._cell_size_cache = old_lock, old_cache
+        install(U, term, counters)
+    return {"flag": flag, "rets": rets, "nbody": nbody, "keys": keys, "cache": cache, "after": after,
+            "fdis": [fdis[k] for k in keys], "fen": [fen[k] for k in keys], "log": log,
+            "drained": drained, "stuck": stuck, "errors": errs, "trace": coop.trace,
+            "distinct": int(all(fdis[k] != fen[k] for k in keys))}
+
+
 # ------------------------------------------------------------- new-interpreter fresh
 
 
@@ -735,6 +1128,8 @@ def run_case(case):
         return run_probe(case)
     if "swap" in case:
         return run_swap(case)
+    if "inval" in case:
+        return run_inval(case)
     if "threads" in case:
         return run_threads(case)
     return run_history(case)
